@@ -182,6 +182,24 @@ def main(tier):
     S = structures(tier, ck.seed)
     outs = run_units("jxverif.props.C02", "worker", [(c, tier) for c in S] + [(CANARY_STRUCT, "quick", can) for can in CANARIES])
     outs_l = run_units("jxverif.props.C02", "lemma_worker", [tier])
+    # the operator-level obligations speak about the solution only through "every backend returns the exact solution of the
+    # assembled system" (C01).  That link is exercised here on structures that stress the custom solver's index logic, so that
+    # this check stands alone: the C01 chain (Thomas/Stone code through the elimination contracts) on a few irregular trees.
+    chain_structs = [[([-1, 0, 0, 2], [1, 1, 2, 1])], [([-1, 0, 0, 2, 2], [2, 1, 2, 2, 1])], [([-1, 0, 1, 1], [2, 1, 1, 2])], [([-1, 0, 0], [2, 1, 2]), ([-1, 0], [1, 2])]]
+    outs_c = run_units("jxverif.props.C01", "structure_worker", [(c, tier, ["jaxley.thomas", "jaxley.stone"]) for c in chain_structs])
+    for o in outs_c:
+        if o[0] != "ok" or o[1]["error"]:
+            ck.error(str(o[1] if o[0] != "ok" else o[1]["error"])[:600])
+            continue
+        ck.refused += [f"{o[1]['tag']}: {r}" for r in o[1]["refused"]]
+        bad = [r for r in o[1]["results"] if r["status"] == "refuted"]
+        for r in o[1]["results"]:
+            ck.add(r)
+        if bad:
+            rp = native_charge(o[1]["cells"])
+            for r in bad[:3]:
+                ck.violation(r["name"], {"solver": r["backend"], "solver_output": r["detail"], "model": r["model"], "cells": o[1]["cells"], "kind": "c02",
+                                         "replay_module": "jxverif.props.C02", "replay": rp}, reproduced=rp.get("reproduced", False))
     n_struct, viol = 0, 0
     reached = {}
     for o in outs[:len(S)] + outs_l:
